@@ -45,6 +45,7 @@ def spec_scan(ops, impl):
     blk_n, flushed = {}, []
     written, at_op, syncs = [], {}, []
     acked, pending_ack, nops = [], None, 0   # (first op index after an acknowledged Sync/Close, entries written by then)
+    cut = False
     for i, op in enumerate(ops):
         if i >= len(impl):
             break
@@ -56,6 +57,7 @@ def spec_scan(ops, impl):
         if f[0] == "case":
             written, at_op, syncs = [], {}, []
             acked, pending_ack, nops = [], None, 0
+            cut = False
             blk_n, flushed = {}, []     # entries per block id; (op index of a completed payload write, entries on disk by then)
         elif f[0] == "blk":
             blk_n[f[1]] = len(f[4].split(";")) if f[4] not in ("", "-") else 0
@@ -64,7 +66,24 @@ def spec_scan(ops, impl):
         elif f[0] == "act" and f[1] in ("sync", "close") and rep == "ok ok" and (written or nops):
             # Sync()/Close() returned nil to the caller (what fileWriterHandler treats as durable)
             pending_ack = len(written) if nops or True else None
+        elif f[0] == "act" and f[1] == "load" and cut:
+            # the file was cut by hand (a first crash) and this is the first recovery: it must be a
+            # prefix of what was written; from here on it is the durable baseline of a resumed session
+            cut = False
+            got = rep.split(" ")[1].split("\t")[0] if " " in rep else "?"
+            for m in range(len(written), -1, -1):
+                st = {}
+                S.apply_items(st, ",".join(written[:m])) if m else None
+                if S.fmt_state(st) == got:
+                    written = written[:m]
+                    syncs, flushed, pending_ack = [], [], None
+                    acked = [(nops, m)]
+                    break
+            else:
+                bad.append((i, "the load after a torn tail returns %s, which is not the replay of a prefix of what was written" % got, "recover"))
         elif f[0] in ("log", "plant"):
+            if f[0] == "plant" and f[2] == "trunc":
+                cut = True
             idx = int(f[1])
             nops = idx + 1
             at_op[idx] = len(written)
